@@ -197,7 +197,11 @@ func init() {
 			out.Stats.distinct(cc.Q, true)
 			vs := []struct{ lead, trail, pad int }{{0, 0, -1}, {1, 4, 0}, {4, 1, 12}}
 			v := vs[idx%3]
-			q := strings.Repeat(" ", v.lead) + cc.Q + strings.Repeat(" ", v.trail)
+			body := cc.Q
+			if idx%2 == 1 {
+				body = strings.ReplaceAll(body, " ", []string{"  ", "   ", " \t "}[idx%3]) // runs of blanks between the tokens
+			}
+			q := strings.Repeat(" ", v.lead) + body + strings.Repeat(" ", v.trail)
 			o, _ := RunOn(q, nil, RunOpts{Mode: "row", BSize: 2, Cache: true, NoLog: true})
 			out.Stats.Evaluations++
 			if o.err == nil || o.Phase == "panic" {
